@@ -4,6 +4,7 @@ package harness
 // `rpc` lines of the Lean driver (Mmmbbb.Api.handle).
 
 import (
+	"math/big"
 	"context"
 	"fmt"
 	"sort"
@@ -415,9 +416,17 @@ func (w *ApiWorld) ExecRpc(r Rpc) *RpcResult {
 			case r.Target == "zero":
 				req.Target = &pubsubpb.SeekRequest_Time{Time: timestamppb.New(time.Time{})}
 			case strings.HasPrefix(r.Target, "time:"):
-				var v int64
-				fmt.Sscan(r.Target[5:], &v)
-				req.Target = &pubsubpb.SeekRequest_Time{Time: timestamppb.New(Epoch.Add(time.Duration(v)))}
+				if bi, okb := new(big.Int).SetString(r.Target[5:], 10); okb && !bi.IsInt64() {
+					// an instant further from the epoch of the protocol than a Duration reaches (e.g. a few
+					// nanoseconds after Go's zero time): the protobuf Timestamp is built from seconds and nanos
+					total := new(big.Int).Add(bi, new(big.Int).Mul(big.NewInt(Epoch.Unix()), big.NewInt(1000000000)))
+					sec, nanos := new(big.Int).DivMod(total, big.NewInt(1000000000), new(big.Int))
+					req.Target = &pubsubpb.SeekRequest_Time{Time: &timestamppb.Timestamp{Seconds: sec.Int64(), Nanos: int32(nanos.Int64())}}
+				} else {
+					var v int64
+					fmt.Sscan(r.Target[5:], &v)
+					req.Target = &pubsubpb.SeekRequest_Time{Time: timestamppb.New(Epoch.Add(time.Duration(v)))}
+				}
 			case strings.HasPrefix(r.Target, "snap:"):
 				req.Target = &pubsubpb.SeekRequest_Snapshot{Snapshot: r.Target[5:]}
 				tf = "snap:" + Enc(r.Target[5:])
